@@ -267,6 +267,16 @@ func (c *EvalCtx) ident(name string) Value {
 			return v
 		}
 	}
+	if m := c.e.localAlias[c.fnKey]; m != nil && !c.noVars && c.st != nil {
+		if alt, ok := m[name]; ok {
+			if v, ok := c.st.vars[alt]; ok {
+				if va, isAddr := v.(varAddr); isAddr {
+					return c.e.loadPtr(c.st, va.P)
+				}
+				return v
+			}
+		}
+	}
 	if v, ok := c.lookupPkgObj(c.pkg, name); ok {
 		return v
 	}
@@ -289,6 +299,9 @@ func (c *EvalCtx) ident(name string) Value {
 		return nilV{}
 	case "int", "byte", "uint8", "uint16", "uint32", "uint64", "int64", "string", "bool", "error":
 		return TypeV{types.Universe.Lookup(name).Type()}
+	}
+	if c.e.unkIdents != nil && c.fnKey == c.e.curFn {
+		c.e.unkIdents[name] = true
 	}
 	return c.fail("unknown identifier %q", name)
 }
